@@ -122,7 +122,16 @@ def run_case(case, rec):
         hb, ha = np.asarray(rb[1], dtype=float), np.asarray(ra[1], dtype=float)
         rec.count("equiv_compared")
         mu = nn.ref_mu(x, N, cfg["t"])
-        for j in range(len(x)):
+        # A bet within rounding of the maximum 1/mu_j makes the factor for a small observation equal to 0 up to
+        # rounding (1 - lam mu ~ 1e-16), and eta = mu(1 + lam(u - mu)) lands within an ulp of u: there the two
+        # parametrisations are the same number mathematically but ill-conditioned numerically (the sign of a 1e-16
+        # factor is noise).  The comparison stops at the first such index; the identity is checked up to it.
+        with np.errstate(all="ignore"):
+            lamv = _seq(bobj.bet(xa), len(x))
+        stop = next((j for j in range(len(x)) if mu[j] > 0 and lamv[j] * mu[j] >= 1 - 1e-9), len(x))
+        if stop < len(x):
+            rec.count("equiv_truncated_at_maximal_bet")
+        for j in range(stop):
             # where mu_j is at a boundary both forms apply the same convention; elsewhere values must agree
             if not nnref.close(float(hb[j]), float(ha[j]), 1e-9) and not (math.isnan(hb[j]) and math.isnan(ha[j])):
                 # after an exact boundary (mu = 0 or u) the ALPHA form is 0/0 while the betting form is finite:
@@ -130,7 +139,7 @@ def run_case(case, rec):
                 rec.violation("c12.equiv", f"{lab}:alpha_betting_differ",
                               {"index": j, "betting": hb, "alpha": ha, "mu": mu})
                 break
-        if not nnref.close(float(rb[0]), float(ra[0]), 1e-9):
+        if stop == len(x) and not nnref.close(float(rb[0]), float(ra[0]), 1e-9):
             rec.violation("c12.equiv", f"{lab}:overall_differ", {"betting": rb[0], "alpha": ra[0]})
 
 
